@@ -90,8 +90,10 @@ impl Ctx {
         self.back.get(real).cloned().unwrap_or_else(|| format!("?{}", real))
     }
 
+    /// times are printed as they are: nanoseconds (the model's clock is the App's block time)
     fn rel(&self, t: Timestamp) -> i128 {
-        t.seconds() as i128 - self.t0 as i128
+        let _ = self.t0;
+        t.nanos() as i128
     }
 
     fn pool_balance(&self) -> u128 {
@@ -509,10 +511,8 @@ impl<'a> Gen<'a> {
         self.out.push("sdump".to_string());
     }
 
-    /// `advance`: through update_block or set_block, sometimes with a sub-second part. Rewards count whole seconds of
-    /// block time (floor differences) while the unbonding queue compares nanoseconds; the one situation in which
-    /// "seconds only" and nanoseconds order a payout differently (same whole second, payout's sub-second part later)
-    /// is avoided by adding a second.
+    /// `advance`: through update_block or set_block, sometimes with a sub-second part (rewards count whole seconds of
+    /// block time, the unbonding queue compares nanoseconds — the model does both)
     fn advance(&mut self, secs: u64) {
         const NS: u64 = 1_000_000_000;
         let mode = if self.rng.chance(1, 4) { "set" } else { "upd" };
@@ -527,19 +527,9 @@ impl<'a> Gen<'a> {
             }
         } else {
             0
-        };
-        let nanos = nanos % NS;
-        let mut secs = secs;
-        loop {
-            let f = self.now.1 + nanos;
-            let t = (self.now.0 + secs + f / NS, f % NS);
-            if self.pending.iter().any(|p| p.0 == t.0 && p.1 > t.1) {
-                secs += 1;
-                continue;
-            }
-            self.now = t;
-            break;
-        }
+        } % NS;
+        let f = self.now.1 + nanos;
+        self.now = (self.now.0 + secs + f / NS, f % NS);
         if nanos == 0 && mode == "upd" {
             self.op(format!("advance {}", secs));
         } else {
